@@ -262,7 +262,7 @@ def run(ctx, res):
     res.extra["engine"] = stats
     res.rule = ("(i) directed search per structural offender (node, argument) reported by the dataflow — known or new —: populations whose group members "
                 "differ in that argument, looking for two values of the node within one group; (ii) generated populations at several dates: every "
-                "group-suffixed column of the default targets' graph must have one value per group (ids as computed by the engine). "
+                "group-suffixed column of the default targets' graph must have one value per group (ids as computed by the engine; tables carry permuted index labels, results are read by position). "
                 "distinct = (population, group-level column) pairs checked.")
 
 
